@@ -70,6 +70,7 @@ def bootstrap(hashseed: str | None = None):
     import warnings
     warnings.simplefilter('ignore', DeprecationWarning)
     import kernpy  # noqa
+    import kernpy.__main__  # noqa - module-level lines must not be counted as line events of a later operation
     loc = os.path.abspath(kernpy.__file__)
     if not loc.startswith(src + os.sep):
         raise HarnessError(f'kernpy resolved to {loc}, expected under {src}')
@@ -138,6 +139,7 @@ def _work(job):
            'known_hits': collections.Counter(), 'unlisted': [], 'unlisted_n': 0, 'unlisted_sigs': collections.Counter(),
            'harness_errors': [], 'extras': []}
     h = hashlib.sha256()
+    h2 = hashlib.sha256()
     try:
         for i in indices:
             try:
@@ -149,6 +151,9 @@ def _work(job):
                 continue
             agg['n'] += 1
             h.update(res['digest'].encode())
+            # crash points are indices into the tree's line events, which legitimately depend on set iteration order:
+            # for the cross-PYTHONHASHSEED comparison such runs contribute their plan, not their event log
+            h2.update((digest_of(plan) if res.get('hash_sensitive') else res['digest']).encode())
             agg['events'] += res.get('events', 0)
             agg['faults'].update(res.get('faults', {}))
             agg['probes'].update(res.get('probes', {}))
@@ -171,6 +176,7 @@ def _work(job):
     finally:
         faulthandler.cancel_dump_traceback_later()
     agg['digest'] = h.hexdigest()
+    agg['digest_hs'] = h2.hexdigest()
     if hasattr(_CHECK, 'reduce_extra'):
         agg['extras'] = [_CHECK.reduce_extra(agg['extras'])]
     else:
@@ -253,6 +259,7 @@ def _finish(check, tier, seed, start, runs, good, harness_errors, truncated, wal
     extra_sum = collections.Counter()
     shapes = set()
     digests = []
+    digests_hs = []
     events = 0
     samples = []
     known_hits = collections.Counter()
@@ -269,6 +276,7 @@ def _finish(check, tier, seed, start, runs, good, harness_errors, truncated, wal
         extra_sum.update(r['sums'])
         events += r['events']
         digests.append(r['digest'])
+        digests_hs.append(r['digest_hs'])
         shapes |= r['shapes']
         samples.extend(r['samples'])
         known_hits.update(r['known_hits'])
@@ -342,6 +350,7 @@ def _finish(check, tier, seed, start, runs, good, harness_errors, truncated, wal
             'unlisted_signatures': dict(unlisted_sigs.most_common(20)),
             'components': check.COMPONENTS,
             'batch_digest': batch_digest,
+            'batch_digest_hash_insensitive': digest_of(digests_hs),
             'workers': workers,
             'hashseed': os.environ.get('PYTHONHASHSEED'),
             'exhaustive': False,
@@ -497,6 +506,7 @@ def main(load_check, argv=None):
                               quiet=args.digest_only)
         if args.digest_only:
             print(ev['coverage']['batch_digest'])
+            print('hs:' + ev['coverage']['batch_digest_hash_insensitive'])
         return rc
     except HarnessError as e:
         log(f'HARNESS-ERROR {e}')
